@@ -113,8 +113,15 @@ def command_argv(command, path):
     raise HarnessError(f"unknown command {command}")
 
 
-def observe(tree, relpath, command, seed, timeout):
-    """One fresh process; returns (status, stdout, stderr, extra)."""
+def observe(tree, relpath, command, seed, timeout, patient=False):
+    """One fresh process; returns (status, stdout, stderr, extra).
+
+    Only `run` may legitimately not terminate, so only `run` under the reference seed gets the
+    short timeout (a program that exceeds it is excluded).  Everything else - other commands,
+    and `run` under another seed once the reference run finished - gets a generous one, so that
+    machine load can never look like a difference."""
+    if command != "run" or patient:
+        timeout = max(timeout * 20, 180)
     path = os.path.join(tree, relpath)
     extra = b""
     if command == "fmt":
@@ -189,8 +196,8 @@ def shrink_program(tree, relpath, command, seed_a, seed_b, timeout, budget=60):
     def differs(candidate):
         with open(probe, "w", encoding="utf8") as handle:
             handle.write("\n".join(candidate))
-        a = observe(tree, probe_rel, command, seed_a, timeout)
-        b = observe(tree, probe_rel, command, seed_b, timeout)
+        a = observe(tree, probe_rel, command, seed_a, timeout, patient=True)
+        b = observe(tree, probe_rel, command, seed_b, timeout, patient=True)
         return a != b and a[0] != "timeout" and b[0] != "timeout"
 
     chunk = max(1, len(lines) // 2)
@@ -226,7 +233,7 @@ def run_c16(tier, seed):
     files = corpus_files(tree)
     mutants = add_mutants(tree, files, mutant_count, seed)
     from blockgen import write_block_corpus
-    blocks = write_block_corpus(tree, seed, 40 if thorough else 12)
+    blocks = write_block_corpus(tree, seed, 80 if thorough else 24)
     cases = [(f, "corpus") for f in files] + [(f, "mutant") for f in sorted(mutants)] + [(f, "block") for f in blocks]
     reference_seed = mix(seed, ENGINE, 0)
     other_seeds = [mix(seed, ENGINE, k) for k in range(1, seeds_per_case)]
@@ -258,7 +265,7 @@ def run_c16(tier, seed):
         # one other seed instead of three; thorough runs every seed on everything
         seeds_here = other_seeds[:1] if (not thorough and elapsed > 0.35) else other_seeds
         for other in seeds_here:
-            outcome = observe(tree, relpath, command, other, timeout)
+            outcome = observe(tree, relpath, command, other, timeout, patient=True)
             processes += 1
             if outcome != reference:
                 found = (other, outcome)
@@ -290,8 +297,8 @@ def run_c16(tier, seed):
     known_seen = set()
     for (relpath, family, command), (other, outcome), reference in differences:
         # exact replay first: both seeds once more
-        again_ref = observe(tree, relpath, command, reference_seed, timeout)
-        again_other = observe(tree, relpath, command, other, timeout)
+        again_ref = observe(tree, relpath, command, reference_seed, timeout, patient=True)
+        again_other = observe(tree, relpath, command, other, timeout, patient=True)
         if again_ref != reference or again_other != outcome:
             raise HarnessError(f"non-reproducible difference for {command} {relpath}: the seam does not own this run")
         lines = differing_lines(reference, outcome)
@@ -367,8 +374,8 @@ def replay_c16(path, quiet=False, tree=None):
     with open(os.path.join(tree, relpath), "w", encoding="utf8") as handle:
         handle.write(payload["program"])
     try:
-        a = observe(tree, relpath, payload["command"], int(payload["seed_reference"]), 20)
-        b = observe(tree, relpath, payload["command"], int(payload["seed_other"]), 20)
+        a = observe(tree, relpath, payload["command"], int(payload["seed_reference"]), 20, patient=True)
+        b = observe(tree, relpath, payload["command"], int(payload["seed_other"]), 20, patient=True)
     finally:
         os.unlink(os.path.join(tree, relpath))
     if a != b:
